@@ -41,14 +41,20 @@ def solver_cases(cases):
 
 
 def configure(sim, integ, c):
+    # Documented protocol (docs/integrators.md, safe_mode): with safe_mode = 0 it is the USER's job to synchronize before the
+    # particles are read or modified or the integrator / its settings are changed, and to ask for the internal coordinates
+    # to be recalculated afterwards.  Every switch therefore starts with synchronize() under the OLD settings ...
+    sim.synchronize()
     sim.integrator = integ
     if integ == "whfast":
         sim.ri_whfast.coordinates = c.get("coordinates") or "jacobi"
         sim.ri_whfast.safe_mode = c.get("safe_mode", 1)
         sim.ri_whfast.kernel = c.get("kernel", "default")
         sim.ri_whfast.corrector = c.get("corrector", 0)
+        sim.ri_whfast.recalculate_coordinates_this_timestep = 1     # ... and the new settings start from the particles
     if integ == "saba":
         sim.ri_whfast.coordinates = "jacobi"      # SABA shares ri_whfast and insists on Jacobi coordinates
+        sim.ri_whfast.recalculate_coordinates_this_timestep = 1
         sim.ri_saba.type = c.get("saba_type", "10,6,4")
         sim.ri_saba.safe_mode = c.get("safe_mode", 1)
     if integ == "mercurius":
@@ -69,22 +75,33 @@ def apply_history(sim, h):
             sim.step()
     elif op == "error_step":
         # a step refused by reb_integrator_whfast_init (non-default kernel needs Jacobi coordinates); the same object is used on
+        sim.synchronize()
         sim.integrator = "whfast"
         sim.ri_whfast.kernel = "lazy"
         sim.ri_whfast.coordinates = "whds"
         sim.dt = fh(h["dt"])
+        ps = sim.particles
+        snap = ([[getattr(ps[i], n) for n in C6] for i in range(sim.N)], sim.t, int(sim.ri_whfast.is_synchronized))
+        raised = False
         try:
             sim.step()
         except Exception:
-            pass
+            raised = True
+        ps = sim.particles
+        now = ([[getattr(ps[i], n) for n in C6] for i in range(sim.N)], sim.t, int(sim.ri_whfast.is_synchronized))
         sim.ri_whfast.kernel = "default"
+        # regression of the fixed finding kepler:refused_step_still_runs_part2: a refused step is a no-op
+        if not raised:
+            return "the step with kernel=lazy and WHDS coordinates was not refused"
+        if repr(now) != repr(snap):
+            return "a refused step changed the simulation: (particles, t, is_synchronized) %r -> %r" % (snap, now)
     elif op == "reset_integrator":
         sim.reset_integrator()
     elif op == "synchronize":
         sim.synchronize()
     elif op == "third_body":
         # a far, light third body joins for a few steps and leaves again (particle arrays are re-allocated twice)
-        sim.synchronize()
+        configure(sim, "whfast", {"coordinates": "jacobi", "safe_mode": 1})     # synchronizes first; safe_mode = 1 while N changes
         p = sim.particles[1]; q = sim.particles[0]
         f = h["factor"]
         sim.add(m=h["m"], x=q.x + f * (p.x - q.x) + f * (p.y - q.y), y=q.y + f * (p.y - q.y) - f * (p.x - q.x), z=q.z + f * (p.z - q.z),
@@ -94,6 +111,7 @@ def apply_history(sim, h):
             sim.step()
         sim.synchronize()
         sim.remove(index=2)
+        sim.ri_whfast.recalculate_coordinates_this_timestep = 1
     else:
         raise ValueError("unknown history op " + op)
 
@@ -113,8 +131,11 @@ def sim_cases(cases):
             # HISTORY: what happened to this simulation object before the measured step (integrator / coordinate /
             # kernel / safe_mode switches, reset_integrator, a third body added and removed again ...). The measured
             # step must be the exact Kepler flow of whatever two-body state the history leaves behind.
+            notes = []
             for h in c.get("history", []):
-                apply_history(sim, h)
+                note = apply_history(sim, h)
+                if note:
+                    notes.append(note[:600])
             integ = c["integrator"]
             configure(sim, integ, c)
             sim.synchronize()
@@ -125,7 +146,7 @@ def sim_cases(cases):
             sim.step()
             sim.synchronize()
             ps = sim.particles
-            res = {"before": before, "state": [[getattr(ps[i], n).hex() for n in C6] for i in range(sim.N)],
+            res = {"before": before, "notes": notes, "state": [[getattr(ps[i], n).hex() for n in C6] for i in range(sim.N)],
                    # time advanced by the measured step: exactly the requested dt iff t1 == t0 + dt in binary64
                    # (within 2 ulp: the library may accumulate the time with a compensation term)
                    "t": (fh(c["dt"]) if abs(sim.t - (t0 + fh(c["dt"]))) <= 2 * math.ulp(max(abs(t0), abs(sim.t)))
